@@ -914,7 +914,7 @@ def worker(job):
 
 
 def run(ctx):
-    n = ctx.size(200, 3000)
+    n = ctx.size(200, 12000)
     exes = {fl: harness(fl) for fl in ("hooks", "asan")}
     chunk = 6
     jobs = []
